@@ -5,3 +5,4 @@ import Proofs.Assign
 import Proofs.FileStore
 import Proofs.PathsStore
 import Proofs.Group
+import Proofs.Matcher
